@@ -11,21 +11,48 @@
     [spec_check]: the observation is what the property demands, computed without
     the model: concatenation of independent renderings (integers printed by the
     standard library's [Z.to_int], the decimal printer Coq itself uses). *)
-From Coq Require Import ZArith NArith List Bool Decimal.
+From Coq Require Import ZArith NArith List Bool Decimal Uint63.
 From RlibV Require Import Common.Batch C09.Model.
 Import ListNotations.
 Open Scope Z_scope.
 
-(** byte strings with long runs kept short in the case terms *)
-Inductive seg := Lit (l : list byte) | Run (c : byte) (k : N).
+(** ---------- compact encodings used by the case printer ----------
+    Parsing a numeral costs time proportional to the size of the resulting
+    binary term; a primitive 63-bit integer is one node.  Byte strings are
+    therefore written as words holding a leading 1 followed by up to seven
+    bytes (most significant first), long runs as (byte, count), and integer
+    operands as limbs in base 10^18 (most significant first). *)
+Definition small_Z (n : nat) (i : int) : Z := to_Z_rec n i.
+
+(** the bytes of one word, pushed in front of [acc] *)
+Fixpoint word_bytes (fuel : nat) (w : int) (acc : list byte) : list byte :=
+  match fuel with
+  | O => acc
+  | S f => if (w <=? 1)%uint63 then acc
+           else word_bytes f (w >> 8)%uint63 (small_Z 8 (w land 255)%uint63 :: acc)
+  end.
+
+Inductive seg := Lit (ws : list int) | Run (c : byte) (k : N).
+Arguments Lit ws%uint63.
 Definition nrep (c : byte) (k : N) : list byte := N.iter k (cons c) [].
+Fixpoint words_bytes (ws : list int) (tl : list byte) : list byte :=
+  match ws with
+  | [] => tl
+  | w :: r => word_bytes 7 w (words_bytes r tl)
+  end.
 Fixpoint expand (ss : list seg) : list byte :=
   match ss with
   | [] => []
-  | Lit l :: r => l ++ expand r
+  | Lit ws :: r => words_bytes ws (expand r)
   | Run c k :: r => nrep c k ++ expand r
   end.
 Definition str (ss : list seg) : value := VStr (expand ss).
+
+(** integer operand: sign and limbs in base 10^18 *)
+Definition zv (neg : bool) (limbs : list int) : Z :=
+  let m := fold_left (fun a l => a * 1000000000000000000 + small_Z 63 l) limbs 0 in
+  if neg then - m else m.
+Arguments zv neg limbs%uint63.
 
 Inductive obs :=
 | Panic
